@@ -86,6 +86,13 @@ pub fn drive(tr: &mut Tracer, rng: &mut StdRng, thorough: bool) {
         tr.emit(json!({"op": "de_token", "ty": "f64", "bits": u128_to_json(rng.gen::<u64>() as u128)}));
         tr.emit(json!({"op": "de_token", "ty": "f32", "bits": u128_to_json(rng.gen::<u32>() as u128)}));
     }
+    // integral floats at the integer type limits: 2^k and its neighbours
+    for k in 0..=130i32 {
+        for x in [2f64.powi(k), -(2f64.powi(k)), 2f64.powi(k) * (1.0 + f64::EPSILON), 2f64.powi(k) * (1.0 - f64::EPSILON / 2.0)] {
+            tr.emit(json!({"op": "de_token", "ty": "f64", "bits": u128_to_json(x.to_bits() as u128)}));
+        }
+        if k < 128 { tr.emit(json!({"op": "de_token", "ty": "f32", "bits": u128_to_json(2f32.powi(k).to_bits() as u128)})); }
+    }
     for b in [0x7FF0000000000000u64, 0x7FF8000000000000, 0xFFF0000000000000, 0, 1 << 63, 1] {
         tr.emit(json!({"op": "de_token", "ty": "f64", "bits": u128_to_json(b as u128)}));
     }
